@@ -1164,7 +1164,11 @@ fn calculate_named_arg_order(
     let mut reordered_args: Vec<Option<Rc<Expr>>> = vec![None; func_arg_info.nargs];
     for (i, arg) in args.iter().enumerate() {
         let index = if let Some(name) = &arg.name {
-            func_arg_info.arg_indices.get_id(&name.v) as usize
+            // an unknown argument name has already been reported as unresolved
+            let Some(id) = func_arg_info.arg_indices.try_get_id(&name.v) else {
+                continue;
+            };
+            id as usize
         } else {
             i
         };
